@@ -153,7 +153,8 @@ def _mk_init_body( self_name, name, type_ ):
   def _recursive_generate_copy( x, v, depth=0 ):
     if isinstance( x, list ):
       e = f"_e{depth}"
-      return f"[{_recursive_generate_copy( x[0], e, depth+1 )} for {e} in {v}]"
+      # ( _check_len refuses a list of another length than the field has )
+      return f"[{_recursive_generate_copy( x[0], e, depth+1 )} for {e} in _check_len({v}, {len(x)}, '{name}')]"
     if is_bitstruct_class( x ):
       return f"{v}.clone()"
     return f"_type_{name}({v})"
@@ -208,6 +209,12 @@ def _mk_init_fn( self_name, fields ):
     else:
       assert issubclass( type_, Bits ) or is_bitstruct_class( type_ )
       _globals[ f"_type_{name}" ] = type_
+
+  def _check_len( v, n, name ):
+    if len(v) != n:
+      raise ValueError( f"list field '{name}' has {n} elements, got {len(v)}" )
+    return v
+  _globals[ '_check_len' ] = _check_len
 
   return _create_fn(
     '__init__',
